@@ -33,6 +33,9 @@ def obligations(tier):
         CH("nonzero_offsets_enumerated", "props.h_C15", "offsets", 300, mode="E1s", functions=F[:2],
            bounds="7 UTC offsets (-12:00..+14:00 incl. +05:45, -05:30) x 8 instants (day/year rollover, leap day, year 999/1/9999) x 6 settings x 3 tz kinds; "
                   "independent calendar arithmetic (days-from-civil); enumeration, the symbolic model does not cover C astimezone"),
+        CH("ambiguous_local_times", "props.h_C15", "fold_inputs", 300, mode="E1s", functions=["stix2.utils.STIXdatetime.__new__", "stix2.utils.parse_into_datetime",
+           "stix2.utils.format_datetime", "stix2.properties.TimestampProperty.clean"],
+           bounds="6 local times around a fall-back transition of a fold-aware tzinfo (fold 0 / 1) x 6 settings x 4 routes (STIXdatetime, parse_into_datetime, property, object)"),
         CH("date_inputs_enumerated", "props.h_C15", "dates", 300, mode="E1s", functions=F[1:2], bounds="8 dates x 6 settings (midnight UTC)"),
         JOB("order_preserved", M, "job_order", 60, engine="smt", functions=F[1:2],
             bounds="all pairs of microsecond values 0..999999, 3x2 settings (z3 Int, no bound on the arithmetic)"),
